@@ -12,6 +12,11 @@ CFGS = {
     # relay pull: retry budget n / forever / never, auto-stop after a window / never / immediately
     "P1": dict(RtmpPubs=["p1"], RtspPubs=[], CustPubs=[], PsPubs=[], RtmpSubs=["s1"], FlvSubs=[],
                PullRetry=1, PullAuto=1, PullEnabled=True, Hook=False),
+    # small pull configurations whose whole state graph is replayed (edge cover)
+    "P0": dict(RtmpPubs=[], RtspPubs=[], CustPubs=[], PsPubs=[], RtmpSubs=["s1"], FlvSubs=[],
+               PullRetry=1, PullAuto=-1, PullEnabled=True, Hook=False),
+    "P4": dict(RtmpPubs=["p1"], RtspPubs=[], CustPubs=[], PsPubs=[], RtmpSubs=[], FlvSubs=[],
+               PullRetry=0, PullAuto=-1, PullEnabled=True, Hook=True),
     "P2": dict(RtmpPubs=["p1"], RtspPubs=[], CustPubs=[], PsPubs=[], RtmpSubs=[], FlvSubs=["f1"],
                PullRetry=-1, PullAuto=-1, PullEnabled=True),
     "P3": dict(RtmpPubs=["p1", "p2"], RtspPubs=[], CustPubs=[], PsPubs=[], RtmpSubs=["s1"], FlvSubs=[],
